@@ -354,6 +354,9 @@ func runC11(args []string) error {
 		if n > 40 {
 			kinds = []int{0, 1, 6, 8, 10}
 		}
+		if n > 256 && !thorough {
+			kinds = []int{0, 6} // quick: random, and one that needs a row exchange at every pivot (rows longer than 256 elements)
+		}
 		if !thorough && n > 12 && n <= 40 {
 			// quick: a seeded half of the kinds for mid sizes
 			rng.Shuffle(len(kinds), func(i, j int) { kinds[i], kinds[j] = kinds[j], kinds[i] })
